@@ -62,7 +62,8 @@ def check(repo, rep):
         if l.outcome != 'return':
             continue
         v = l.value
-        ok = v[0] == 'call' and v[1] == ('g', 'core', 'AudioRegion') and v[2] and v[2][0] == ('bin', '+', ('attr', ('self',), 'data'), ('attr', oth, 'data'))
+        empty_other = any(ct == ('attr', oth, 'data') and not tr for ct, tr, _ in l.conds) or any((g := norm_cmp(ct, tr)) and g[0] == '==' and g[1] == ('call', ('b', 'len'), (oth,), ()) and g[2] == ('c', 0) for ct, tr, _ in l.conds)
+        ok = (v[0] == 'call' and v[1] == ('g', 'core', 'AudioRegion') and v[2] and v[2][0] == ('bin', '+', ('attr', ('self',), 'data'), ('attr', oth, 'data'))) or (v == ('self',) and empty_other)
         rep.ob('a + b carries exactly a.data + b.data (in this order)', ok, W(l.node), 'AudioRegion.__add__:data', 'returns %s' % show(v)[:120], sample=dict(op='+', result=show(v)[:100]))
         idx_check = [i for i, e in enumerate(l.effects) if e[0] == 'call' and ischeck(e[1], oth)]
         rep.ob('a + b passes the parameter check before a region is returned', bool(idx_check), W(l.node), 'AudioRegion.__add__:check',
@@ -215,13 +216,40 @@ def check(repo, rep):
         on, off = sl_[1], sl_[2]
         nxt = [k for k, v in envend.items() if v == off and on is not None and on[0] == 'loopvar' and on[1] == k]
         rep.ob('pieces are contiguous: the next piece starts where this one ends', bool(nxt), W(pieces[0][3]), 'AudioRegion.__truediv__:contiguous', 'slice [%s : %s]; loop variables at the end of the iteration: %s' % (show(on)[:40] if on else None, show(off)[:80] if off else None, {k: show(v)[:50] for k, v in envend.items() if v}))
-        first0 = on is not None and on[0] == 'loopvar' and len(on) == 4 and on[3] == ('c', 0)
-        rep.ob('the first piece starts at sample 0', first0, W(pieces[0][3]), 'AudioRegion.__truediv__:first-onset', 'onset initial value %s' % (show(on[3]) if on and len(on) == 4 else None))
-        q = P.Pat(lambda t: (t[0] == 'sub' and t[1][0] == 'call' and t[1][1] == ('b', 'divmod') and t[1][2] == (('call', ('b', 'len'), (('self',),), ()), dn) and t[2] == ('c', 0)) or
-                  t == ('bin', '//', ('call', ('b', 'len'), (('self',),), ()), dn), 'len // n')
+        if on is None or on[0] != 'loopvar' or len(on) != 4:
+            rep.unknown('AudioRegion.__truediv__: onset of the pieces (%s) is not a loop variable with an initial value' % (show(on)[:40] if on else None))
+        else:
+            rep.ob('the first piece starts at sample 0', on[3] == ('c', 0), W(pieces[0][3]), 'AudioRegion.__truediv__:first-onset', 'onset initial value %s' % show(on[3]))
+        nlen = ('call', ('b', 'len'), (('self',),), ())
+        q = P.Pat(lambda t: (t[0] == 'sub' and t[1][0] == 'call' and t[1][1] == ('b', 'divmod') and t[1][2] == (nlen, dn) and t[2] == ('c', 0)) or t == ('bin', '//', nlen, dn), 'len // n')
+        bit = P.Pat(lambda t: t in (('c', 0), ('c', 1)) or (t[0] == 'ite' and {t[2], t[3]} <= {('c', 0), ('c', 1)}) or (t[0] == 'call' and t[1] == ('b', 'int') and len(t[2]) == 1 and t[2][0][0] == 'cmp'), '0|1')
         onp = P.same(on) if on else P.ANY
-        okq = off is not None and (P.summ(onp, q)(off) or P.summ(onp, q, P.const(1))(off) or P.summ(P.const(0), onp, q)(off) or P.summ(P.const(1), onp, q)(off))
-        rep.ob('piece length is len // n or len // n + 1', okq, W(pieces[0][3]), 'AudioRegion.__truediv__:piece-length', 'offset is %s' % (show(off)[:120] if off else None), sample=dict(op='/', piece='self[%s : %s]' % (show(on)[:30], show(off)[:80])))
+        if off is None:
+            rep.unknown('AudioRegion.__truediv__: piece end not found')
+        else:
+            okq = P.summ(onp, q)(off) or P.summ(onp, q, bit)(off)
+            uses_q = any(q(x) for x in walk(off))
+            if okq or uses_q:
+                rep.ob('piece length is len // n or len // n + 1', okq, W(pieces[0][3]), 'AudioRegion.__truediv__:piece-length', 'offset is %s' % show(off)[:120], sample=dict(op='/', piece='self[%s : %s]' % (show(on)[:30], show(off)[:80])))
+            else:
+                rep.unknown('AudioRegion.__truediv__: piece end %s is not of the form onset + len//n (+1)' % show(off)[:80])
+        # the loop stops when the data is used up: min(n, len) pieces, no empty trailing pieces
+        ent = [e for e in l.effects if e[0] == 'loop-enter']
+        if ent:
+            t = ent[-1][1]
+            node = ent[-1][3]
+            if isinstance(node, ast.While):
+                g = norm_cmp(t, True)
+                ok = g is not None and ((g[0] == '<' and g[1] == on and g[2] == nlen) or (g[0] == '>' and g[1] == nlen and g[2] == on))
+                rep.ob('division yields min(n, len) pieces: the loop runs while samples remain (onset < len)', ok, W(node), 'AudioRegion.__truediv__:loop-bound', 'loop condition %s' % show(t)[:80])
+            else:
+                ok = t[0] == 'call' and t[1] == ('b', 'range') and len(t[2]) == 1 and t[2][0][0] == 'call' and t[2][0][1] == ('b', 'min') and set(t[2][0][2]) == {dn, nlen}
+                plain = t[0] == 'call' and t[1] == ('b', 'range') and t[2] == (dn,)
+                if ok or plain:
+                    rep.ob('division yields min(n, len) pieces: the loop is bounded by the number of samples, not only by n', ok, W(node), 'AudioRegion.__truediv__:loop-bound',
+                           'loop over %s: for n > len this produces n pieces with empty trailing regions' % show(t)[:60])
+                else:
+                    rep.unknown('AudioRegion.__truediv__: loop %s not understood' % show(t)[:60])
     rep.floor('__truediv__ loop paths', nloop, 1)
     check_roles(cx, rep, lambda p: p['func'].startswith('AudioRegion.') or p['func'] in ('make_silence', 'split_and_join_with_silence'), floor=30)
     rep.explanation = ('Operator provenance decided from terms on every path: a+b = AudioRegion(a.data + b.data, same parameters) with TypeError for non-regions and the compatibility check on every returning path; '
